@@ -598,10 +598,11 @@ impl Fiber {
     ));
     allocator.push_root(stack);
 
-    // Assign the frame to the start of the stack and write in the fun
+    // Assign the frame to the start of the stack and bring over what the call left in the
+    // callee's slot: the closure, or for a method its receiver, which is what self reads
     let stack_start = stack.as_mut_ptr();
     unsafe {
-      ptr::write(stack_start, val!(fun));
+      ptr::write(stack_start, *parent_stack_top);
     }
     frame.store_stack_start(stack_start);
 
